@@ -78,8 +78,12 @@ def case_hash(case):
     return hashlib.sha1(json.dumps(jsonable(case), sort_keys=True).encode()).hexdigest()[:12]
 
 
-def V(symptom, **detail):
-    return {"symptom": symptom, "detail": jsonable(detail)}
+def V(symptom, _case=None, **detail):
+    """A violation record; _case = the minimal single case when found inside a batch."""
+    v = {"symptom": symptom, "detail": jsonable(detail)}
+    if _case is not None:
+        v["case"] = jsonable(_case)
+    return v
 
 
 class CaseTimeout(Exception):
@@ -200,7 +204,7 @@ def run_check(modname, tier, seed, replay=None):
     variants = [seed % NVAR] if tier == "quick" else list(range(NVAR))
     known = load_known()
 
-    agg = dict(evaluations=0, nontrivial=set(), outcomes=Counter(), stats=Counter(),
+    agg = dict(evaluations=0, top_cases=0, nontrivial=set(), outcomes=Counter(), stats=Counter(),
                graph_nodes=set(), graph_edges=set(), extra={})
     samples = {}
     violations = []          # (case, viol) not matched by a known finding
@@ -217,15 +221,18 @@ def run_check(modname, tier, seed, replay=None):
     with ctx.Pool(nproc, initializer=_init_worker, initargs=(modname,)) as pool:
         it = pool.imap_unordered(_work, gen(), chunksize=chunk)
         for idx, case, r in it:
-            agg["evaluations"] += 1
+            agg["evaluations"] += int(r.get("n_exec", 1))
+            agg["top_cases"] += 1
             if r["nontrivial"] is not None:
                 nt = r["nontrivial"]
-                if isinstance(nt, (list, tuple)) and nt and isinstance(nt[0], (list, tuple)):
-                    for k in nt:
-                        agg["nontrivial"].add(json.dumps(jsonable(k)))
+                if isinstance(nt, dict):      # batch case: {"keys": [...]}
+                    agg["nontrivial"].update(str(k) for k in nt["keys"])
                 else:
                     agg["nontrivial"].add(json.dumps(jsonable(nt)))
-            agg["outcomes"][str(r["outcome"])] += 1
+            if r.get("outcomes"):
+                agg["outcomes"].update(r["outcomes"])
+            else:
+                agg["outcomes"][str(r["outcome"])] += 1
             for k, v in r["stats"].items():
                 agg["stats"][k] += v
             g = r.get("graph")
@@ -237,11 +244,12 @@ def run_check(modname, tier, seed, replay=None):
             if case is not None and not r["viol"]:
                 samples[idx] = case
             for v in r["viol"]:
-                kf = match_known(known, pid, case, v)
+                vcase = v.pop("case", None) or case
+                kf = match_known(known, pid, vcase, v)
                 if kf is not None:
                     known_hits[kf["id"]] += 1
                 else:
-                    violations.append((case, v))
+                    violations.append((vcase, v))
             if time.time() - t0 > cap:
                 capped = True
                 pool.terminate()
@@ -301,7 +309,7 @@ def run_check(modname, tier, seed, replay=None):
     os.makedirs(os.path.join(VERIF, "evidence"), exist_ok=True)
     with open(os.path.join(VERIF, "evidence", f"{pid}.json"), "w") as fh:
         json.dump(ev, fh, indent=1)
-    print(f"{pid} tier={tier} seed={seed} cases={agg['evaluations']} "
+    print(f"{pid} tier={tier} seed={seed} executions={agg['evaluations']} "
           f"nontrivial={len(agg['nontrivial'])} outcomes={len(agg['outcomes'])} "
           f"violations={len(violations)} known={sum(known_hits.values())} "
           f"wall={ev['wall_s']}s exhaustive={not capped}")
@@ -317,6 +325,7 @@ def _replay(mod, path):
     known = load_known()
     bad = 0
     for v in r["viol"]:
+        v.pop("case", None)
         kf = match_known(known, mod.PID, case, v)
         if kf is not None:
             print(f"KNOWN-FINDING: property={mod.PID} {kf['text']}")
